@@ -42,7 +42,7 @@ def run_seed(args):
             out["error"] = "patch does not apply: " + (r.stdout + r.stderr)[-300:]
             return out
         env = dict(os.environ)
-        env["VERIF_TARGET_DIR"] = os.path.join(VERIF, ".work", "target-ctl-%d" % slot)
+        env["VERIF_TARGET_DIR"] = os.path.join(VERIF, ".work", "target-ctl-%d" % (slot + int(os.environ.get("VERIF_SLOT_BASE", "0"))))
         for pid in props:
             r = subprocess.run([sys.executable, "-m", "sa.run", pid, "--repo", scratch, "--no-evidence"],
                                cwd=VERIF, env=env, capture_output=True, text=True)
